@@ -434,6 +434,35 @@ def run_big(case, rng):
     COL.sample({"family": "big", "n": n}, limit=2)
     for depth in (int(rng.integers(1, 8)), int(rng.integers(8, 21))):
         probe.big_vs_windows("C13.ids", "lookup_id", htm.HTM(depth).lookup_id, [ra, dec], win, wit={"depth": depth})
+    # pair counts are additive over the first catalogue: a first catalogue of more than a million points (in a small
+    # patch, a handful of second points) must give the sum of the counts of its pieces, with none / a scalar / a per-point
+    # scale (the pieces, of at most 2^17 points, go through the ordinary path that the brute-force oracle judges)
+    c_ra, c_dec = float(rng.uniform(0, 360)), float(rng.uniform(-60, 60))
+    ra1 = c_ra + rng.uniform(-1, 1, size=n)
+    dec1 = c_dec + rng.uniform(-1, 1, size=n)
+    ra2, dec2 = c_ra + rng.uniform(-1, 1, size=24), c_dec + rng.uniform(-1, 1, size=24)
+    h = htm.HTM(int(rng.integers(5, 8)))
+    sform = ["none", "scalar", "array"][int(rng.integers(0, 3))] if not case.get("first") else "array"
+    scale = None if sform == "none" else (57.3 if sform == "scalar" else rng.uniform(0.5, 2.0, size=n) * 57.3)
+    rmin, rmax, nbin = (2e-4, 1e-2, 6) if sform != "none" else (2e-4 * 57.3 / 57.3 / 57.3, 1e-2 / 57.3 * 1.0, 6)
+    if sform == "none":
+        rmin, rmax = 0.01, 0.5           # degrees
+    kw = {} if scale is None else {"scale": scale}
+    whole, e = probe.attempt(h.bincount, rmin, rmax, nbin, ra1, dec1, ra2, dec2, getbins=False, **kw)
+    if e is not None:
+        COL.violation("C13.bincount", "bincount with %d first points raised %s: %s" % (n, type(e).__name__, str(e)[:120]), {"n1": n})
+        return
+    tot = np.zeros(nbin, dtype="i8")
+    step = 2 ** 17
+    for a in range(0, n, step):
+        kwp = {} if scale is None else {"scale": scale if np.ndim(scale) == 0 else scale[a:a + step]}
+        part = h.bincount(rmin, rmax, nbin, ra1[a:a + step], dec1[a:a + step], ra2, dec2, getbins=False, **kwp)
+        tot += np.asarray(part, dtype="i8")
+    if np.array_equal(np.asarray(whole, dtype="i8"), tot):
+        COL.ok("C13.bincount", ("big-additive", sform, int(np.log2(n))))
+    else:
+        COL.violation("C13.bincount", "bincount over a first catalogue of %d points (scale: %s) gives %r, the sum over its pieces of 2^17 points %r" % (
+            n, sform, np.asarray(whole).tolist(), tot.tolist()), {"n1": n, "scale": sform}, key="big-additive")
 
 
 def run_case(case):
